@@ -530,4 +530,25 @@ example :
     (List.range 6).filter (fun s => tilesB (sents.getD s []) g) = [3] ∧
       (List.range 6).filter (fun s => graphAccept sents s g) = [3] := by decide
 
+/-! ## round 5: seed C11-9 -/
+
+open KV.Filter in
+/-- the seeded `PassNGram` of `vocab::Union` (C11-9): `FirstIntersection(sets_).value_or(0)` converted to `bool` — a lowest
+common sentence id of 0 reads as "no common sentence" -/
+def passUnionValueOr0 (sents : List (List Bytes)) (ws : List Bytes) : Bool :=
+  match gatherSets sents ws with
+  | none => false
+  | some [] => true
+  | some sets => (firstInter (sortBySize sets)).getD 0 != 0
+
+
+open KV.Filter in
+/-- **union_value_or_zero_drops_first_sentence** (negation witness, `decide`): with a single vocabulary sentence `a b`, the
+unigram `a` is kept by `vocab::Union::PassNGram` (`kept_iff_union`: sentence 0 contains it) but dropped by the variant that
+converts `FirstIntersection(...).value_or(0)` to `bool`, because the lowest common sentence id is 0; an n-gram whose words
+meet only in sentence 1 is kept by both. -/
+theorem union_value_or_zero_drops_first_sentence :
+    passUnion [[[97], [98]], [[99]]] [[97]] = true ∧ passUnionValueOr0 [[[97], [98]], [[99]]] [[97]] = false
+    ∧ passUnion [[[97], [98]], [[99]]] [[99]] = true ∧ passUnionValueOr0 [[[97], [98]], [[99]]] [[99]] = true := by decide
+
 end KV.C11
